@@ -100,6 +100,14 @@ def _table(task):
         gv["Gas Specific Gravity"], gas.make_nonhydrocarbon_properties(gv["N2"], gv["H2S"], gv["CO2"]), task["dryness"])
     tpc, ppc = float(tpc), float(ppc)
     tab = fluid.build_pvt_gas(gv, task["dryness"])
+    # tables of several wells are built one after the other and used afterwards: another gas is tabulated before this table is read
+    other = dict(gv)
+    other["Reservoir Temperature (deg F)"] = float(gv["Reservoir Temperature (deg F)"]) + 37.5
+    other["Gas Specific Gravity"] = min(1.2, float(gv["Gas Specific Gravity"]) + 0.07)
+    try:
+        kept = fluid.build_pvt_gas(other, task["dryness"])   # noqa: F841  (kept alive while `tab` is read)
+    except Exception:  # noqa: BLE001  (the second table is not what is judged)
+        kept = None
     T = float(gv["Reservoir Temperature (deg F)"])
     pts = []
     for p, z in zip(tab["pressure"].to_numpy(), tab["z-factor"].to_numpy()):
